@@ -14,12 +14,14 @@ def rc(name, src, cfg=None, quick=None, thorough=None, **kw):
 
 PROPS = {}
 
-PROPS['C10'] = dict(
-    rule='rapidcheck histories (0..40 total ops over 4 keys / 3 parameter names) run against FlatMap<string,int>, '
-         'FlatMap<int,string>, FlatMap<string,Tracked> and ParameterizedObject, compared with an insertion-ordered '
-         'reference vector after every op; non-trivial = the history re-inserts a key after erasing it, erases a '
-         'non-last key, or reads a parameter with a type other than the stored one; distinct by hash of the op list',
-    floor=dict(quick=500, thorough=5000),
-    assumptions=TRUST,
-    bins=[rc('C10_flatmap', 'harness/C10_flatmap.cpp', 'tbb-asan')],
-)
+
+import glob as _glob
+import importlib.util as _ilu
+import os as _os
+
+for _f in sorted(_glob.glob(_os.path.join(_os.path.dirname(_os.path.abspath(__file__)), 'props_d', 'C*.py'))):
+    _pid = _os.path.basename(_f)[:-3]
+    _spec = _ilu.spec_from_file_location('props_d_' + _pid, _f)
+    _m = _ilu.module_from_spec(_spec)
+    _spec.loader.exec_module(_m)
+    PROPS[_pid] = _m.PROP
